@@ -814,7 +814,8 @@ func (r *Runner) doIter(i int, op *Op) {
 }
 
 // backupDir names the destination of backup n in one of several legal ways (op.F selects): a fresh directory, one
-// that already exists (empty), one named with a trailing separator, one whose name extends the source's ("db2-n").
+// that already exists (empty), one named with a trailing separator, one whose name extends the source's ("db2-n"),
+// one whose path is a string prefix of the source's.
 func (r *Runner) backupDir(op *Op) string {
 	n := op.N
 	switch int(op.F) {
@@ -826,6 +827,10 @@ func (r *Runner) backupDir(op *Op) string {
 		return filepath.Join(r.Root, fmt.Sprintf("bk%d", n)) + string(filepath.Separator)
 	case 3:
 		return filepath.Join(r.Root, fmt.Sprintf("db2-%d", n))
+	case 4:
+		if n == 1 {
+			return filepath.Join(r.Root, "d") // a sibling whose path is a string prefix of the source's (".../d" of ".../db")
+		}
 	}
 	return filepath.Join(r.Root, fmt.Sprintf("bk%d", n))
 }
